@@ -1,7 +1,7 @@
 CONSTANTS
   Dev = {}
   Alphabet <- AlphaObj
-  MaxLen = 7
+  MaxLen = 6
   DepthProbe = {0, 1, 2, 256}
 INIT Init
 NEXT Next
